@@ -7,7 +7,7 @@
 From Coq Require Import ZArith NArith Bool Reals List.
 From Flocq Require Import Core Binary Bits.
 From E57 Require Import Base.Prelude Base.Floats Model.Normalize
-  Proofs.FltLemmas Proofs.NormalizeCore Proofs.NormalizeProofs Proofs.NormalizeTheorems Proofs.NormalizeRange.
+  Proofs.FltLemmas Proofs.NormalizeCore Proofs.NormalizeProofs Proofs.NormalizeTheorems Proofs.NormalizeRange Proofs.NormalizeHalvedClose.
 Local Open Scope R_scope.
 
 (** Which range: the limits when both are given and of one kind (Double, Single,
@@ -79,6 +79,14 @@ Theorem C13_close : forall lo hi rg v y, from_min_max lo hi = Ok rg -> B2R64 lo 
   Rabs (B2R32 y - clampR 0 1 ((B2R64 v - B2R64 lo) / (B2R64 hi - B2R64 lo))) <= bpow radix2 (-24).
 Proof. exact normalize_close_stored. Qed.
 Print Assumptions C13_close.
+
+(** For every accepted range with min < max - also when max - min overflows (f64::MIN..f64::MAX,
+    the default range of a Double attribute) - within 2^-23. *)
+Theorem C13_close_any : forall lo hi rg v y, from_min_max lo hi = Ok rg -> B2R64 lo < B2R64 hi ->
+  fin64 v = true -> normalize rg v = Ok y ->
+  Rabs (B2R32 y - clampR 0 1 ((B2R64 v - B2R64 lo) / (B2R64 hi - B2R64 lo))) <= bpow radix2 (-23).
+Proof. exact normalize_close_any. Qed.
+Print Assumptions C13_close_any.
 
 (** Normalisation switched off: [value as f32]. *)
 Theorem C13_disabled : forall ch v r, channel_value ch false v = Ok r -> r = f32_of_f64 v.
